@@ -3,18 +3,20 @@ accepting a candidate only if the same oracle class fires. Generic over engines:
 text ops 'name int int ...' executed by the engine's 'exec' command."""
 
 
-def _same(r, cls):
-    return r is not None and r.status in ("VIOL", "CRASH", "TIMEOUT") and (r.cls == cls)
-
-
-def minimise(execute, ops, cls, budget=400):
+def minimise(execute, ops, cls, budget=400, classify=None, seconds=45):
     """execute(ops) -> Result. Returns (ops, executions used)."""
+    import time
     used = 0
+    t_end = time.time() + seconds
 
     def test(cand):
         nonlocal used
+        if time.time() > t_end:
+            used = budget
+            return False
         used += 1
-        return _same(execute(cand), cls)
+        r = execute(cand)
+        return r is not None and (classify(r) if classify else r.cls) == cls
 
     # truncate after the failing op first (cheap, big win)
     n = 2
